@@ -701,6 +701,58 @@ SC = dict(eshapes=("scalar",))
 MD = dict(eshapes=("vec2", "mat32"))
 ALL = dict(eshapes=("scalar", "scalar", "vec2", "mat32"), max_rows=12, max_len=20)
 
+# --------------------------------------------------------------------------
+# more than 20000 rows: the constructor switches its input checking off above that size
+
+@st.composite
+def huge_case(draw):
+    return {"n": draw(st.sampled_from([19999, 20000, 20001, 20007])), "seed": draw(st.integers(0, 2 ** 31 - 1)),
+            "how": draw(st.sampled_from(["arrays", "nested", "flat_nd", "flat_pyints"])),
+            "probe": draw(st.lists(st.integers(0, 19998), min_size=3, max_size=6))}
+
+
+def run_huge(case):
+    rng = np.random.RandomState(case["seed"])            # seed drawn by Hypothesis
+    n = case["n"]
+    lens = rng.randint(1, 4, size=n)
+    flat = np.arange(int(lens.sum()), dtype=np.int64)
+    starts = np.concatenate([[0], np.cumsum(lens)[:-1]])
+    rows = [flat[s:s + L] for s, L in zip(starts, lens)]
+    if case["how"] == "arrays":
+        a = ra.RaggedArray([r.copy() for r in rows])
+    elif case["how"] == "nested":
+        a = ra.RaggedArray([r.tolist() for r in rows])
+    elif case["how"] == "flat_nd":
+        a = ra.RaggedArray(flat.copy(), lengths=lens.copy())
+    else:
+        a = ra.RaggedArray(flat.copy(), lengths=[int(x) for x in lens])
+    require(len(a) == n, "len() of a >20000-row array disagrees", got=len(a), want=n)
+    require(np.array_equal(np.asarray(a.lengths), lens), "lengths of a >20000-row array disagree")
+    require(np.array_equal(np.asarray(a.starts), starts), "starts of a >20000-row array disagree")
+    require(np.array_equal(a.flatten(), flat), "flat data of a >20000-row array disagree")
+    require(a.size == flat.size and a.dtype == flat.dtype, "size / dtype of a >20000-row array disagree")
+    for i in case["probe"] + [0, n - 1, -1]:
+        i = int(i)
+        require(np.array_equal(np.asarray(a[i]).astype(np.int64), rows[i]), "row read of a >20000-row array disagrees", row=i)
+        j = int(lens[i]) - 1
+        e = np.asarray(a[i, j]).ravel()
+        require(e.size == 1 and int(e[0]) == int(rows[i][j]), "element read of a >20000-row array disagrees", i=i, j=j)
+        try:
+            a[i, int(lens[i])]
+        except Exception:
+            pass
+        else:
+            raise Violation("a[%d, %d]: index outside the row must raise, but data was returned" % (i, int(lens[i])))
+    lo = case["probe"][0]
+    sub = a[lo:lo + 3]
+    require([int(x) for x in sub.lengths] == [int(x) for x in lens[lo:lo + 3]] and
+            np.array_equal(sub.flatten(), np.concatenate(rows[lo:lo + 3])), "row-slice read of a >20000-row array disagrees")
+    col = a[lo:lo + 50, 0]
+    require(np.array_equal(np.asarray(col.flatten()), np.array([rows[k][0] for k in range(lo, min(lo + 50, n))])),
+            "a[slice, 0] of a >20000-row array disagrees")
+    return Info(n > 20000, ["huge_n=%d" % n, "huge_how=" + case["how"]], key=[n, case["seed"], case["how"]])
+
+
 CLAUSES = [
     # attributes, iteration, flatten, construction paths
     Clause("construct_attrs", case_attrs(**SC), run_attrs_scalar, quick=600, thorough=3600,
@@ -728,6 +780,8 @@ CLAUSES = [
     Clause("slice_cols", case_slice_cols(**SC), run_read, quick=700, thorough=4200, doc="a[slice, j], a[slice, cols]",
            exhaustive=exh_slice_int),
     # fancy
+    Clause("huge_row_count", huge_case(), run_huge, quick=8, thorough=64,
+           doc="arrays with 19999..20007 rows (the constructor's input checking is switched off above 20000)"),
     Clause("paired_long_rows", case_paired(eshapes=("scalar",), max_rows=4, max_len=150), run_read, quick=300, thorough=3000,
            doc="paired / (row, cols) / (rows, col) reads on rows long enough that flat offsets exceed 127 / 255"),
     Clause("paired", case_paired(**SC), run_read, quick=900, thorough=5400,
